@@ -27,7 +27,10 @@ GROUPS = {
     ('copy_slice_vals_is_model', 'copy_slice_vals_eq'), ('copy_slice_vals_zero_div', 'copy_slice_vals_zero_div'),
     ('global_slice_subset_is_model', 'global_slice_subset_eq'),
     ('insert_slice_interleave_is_model', 'insert_slice_interleave_eq'), ('insert_sample_interleave_is_model', 'insert_sample_interleave_eq'),
-    ('slice_step_is_model', 'pyStep_eq')]),
+    ('slice_step_is_model', 'pyStep_eq'), ('get_changed_class_no_slice_dim_is_model', 'get_changed_class_none_eq')]),
+ 'insert': ('dcmmeta.py: per-key dictionary edits of merges (_change_class, _insert_slice, _insert_non_slice, _insert_sample)',
+   [('change_class_is_model', 'change_class_eq'), ('insert_slice_is_model', 'insert_slice_eq'),
+    ('insert_non_slice_is_model', 'insert_non_slice_eq'), ('insert_sample_is_model', 'insert_sample_eq')]),
  'data': ('dcmstack.py: DicomStack.get_data',
    [('file_idx_is_model', 'file_idx_eq'), ('file_idx_volume_is_model', 'file_idx_volume_eq'),
     ('get_data_trim_is_model', 'get_data_trim_eq')]),
